@@ -34,7 +34,7 @@ Lemma tinv_step s o :
 Proof.
   destruct s as [st p n d ev]. unfold tinv. cbn [ts parent_reg dirty evs next_id].
   intros [Hev Hst] Hf Hp Hf'.
-  destruct o as [a| | | | |]; destruct st as [c|c|c|c|nw od|]; try destruct a;
+  destruct o as [a| | | | | |a rp]; destruct st as [c|c|c|c|nw od|]; try destruct a; try destruct rp;
     cbn [t_step ts parent_reg dirty evs next_id] in *.
   all: try (split; [exact Hev|exact Hst]).
   all: try solve [crush; rewrite ?all_ok_app, ?Hev; crush].
